@@ -8,7 +8,8 @@ ID = 'C16'
 LEVEL = 'exploration'
 RULE = ('case = one read/write of size 1/2/4/8 in a random history (200 ops) over a generated controller list '
         '(1-6 devices, sizes 0..64 incl. odd, adjacent/gapped/overlapping/ending at 2^32/straddling 2^32/above 4 GB: physical '
-        'addresses are 40 bits); after every op all '
+        'addresses are 40 bits); in 40% of the histories the registry itself changes between accesses of the same hub object '
+        '(a device replaced by one elsewhere, unplugged and another plugged in, moved, inserted in front, added, removed); after every op all '
         'devices are compared byte for byte with a first-match-wins list-of-bytearrays model; controllers whose window is longer than their RAM (bytes beyond the RAM behave like a device end); non-trivial = the op '
         'hits a mapped device; distinct = (op, size, position class relative to device end/start, layout class, '
         'hit-device index)')
@@ -83,6 +84,87 @@ def gen_layout(rng):
     return kind, devs
 
 
+def _apply_registry(hub, devs, model, mut):
+    """one registry change on the real hub and on the model (devs = [[begin, end], ...], model = bytearrays)"""
+    from armulator.armv6.memory_controller_hub import MemoryController
+    from armulator.armv6.memory_types import RAM
+    kind = mut[0]
+
+    def fresh(b, e, salt):
+        mc = MemoryController(RAM(e - b), b, e)
+        img = bytearray(((b + i) * 13 + salt) & 0xFF for i in range(e - b))
+        mc.mem.memory_array[:] = img
+        return mc, img
+    if kind == 'replace':
+        _, i, b, e, salt = mut
+        mc, img = fresh(b, e, salt)
+        hub.memories[i] = mc
+        devs[i] = [b, e]
+        model[i] = img
+    elif kind == 'unplug-plug':
+        _, i, b, e, salt = mut
+        mc, img = fresh(b, e, salt)
+        hub.memories.pop(i)
+        devs.pop(i)
+        model.pop(i)
+        hub.memories.append(mc)
+        devs.append([b, e])
+        model.append(img)
+    elif kind == 'move':
+        _, i, b = mut
+        ln = devs[i][1] - devs[i][0]
+        hub.memories[i].beginning = b
+        hub.memories[i].end = b + ln
+        devs[i] = [b, b + ln]
+    elif kind == 'insert-front':
+        _, b, e, salt = mut
+        mc, img = fresh(b, e, salt)
+        hub.memories.insert(0, mc)
+        devs.insert(0, [b, e])
+        model.insert(0, img)
+    elif kind == 'add':
+        _, b, e, salt = mut
+        hub.add_memory('RAM', b, e)
+        img = bytearray(((b + i) * 13 + salt) & 0xFF for i in range(e - b))
+        hub.memories[-1].mem.memory_array[:] = img
+        devs.append([b, e])
+        model.append(img)
+    elif kind == 'remove':
+        _, i = mut
+        hub.memories.pop(i)
+        devs.pop(i)
+        model.pop(i)
+
+
+def _mutate_registry(rng, hub, devs, model):
+    kind = rng.choice(['replace', 'replace', 'unplug-plug', 'unplug-plug', 'move', 'move', 'insert-front', 'add', 'remove'])
+    if kind == 'remove' and len(devs) < 2:
+        kind = 'replace'
+    lo = min(b for b, e in devs)
+    hi = max(e for b, e in devs)
+    size = rng.choice([1, 4, 8, 9, 16, 33, 64])
+    # the new window: beyond either end of what the registry has decoded so far, adjacent to it, or inside it
+    b = rng.choice([hi, hi + rng.randrange(0, 40), max(0, lo - size), max(0, lo - size - rng.randrange(0, 40)),
+                    rng.randrange(lo, hi + 1), (hi + 0x1000) & ((1 << 40) - 1)])
+    b = min(b, (1 << 40) - size)
+    e = b + size
+    salt = rng.randrange(256)
+    i = rng.randrange(len(devs))
+    if kind in ('replace', 'unplug-plug'):
+        mut = [kind, i, b, e, salt]
+    elif kind == 'move':
+        if len(model[i]) != devs[i][1] - devs[i][0]:
+            mut = ['replace', i, b, e, salt]
+        else:
+            mut = [kind, i, min(b, (1 << 40) - (devs[i][1] - devs[i][0]))]
+    elif kind in ('insert-front', 'add'):
+        mut = [kind, b, e, salt]
+    else:
+        mut = [kind, i]
+    _apply_registry(hub, devs, model, mut)
+    return mut
+
+
 def run_shard(spec):
     ensure_deps()
     _install_invariant()
@@ -123,7 +205,19 @@ def run_shard(spec):
                 model[di][i] = v
                 hub.memories[di].mem.memory_array[i] = v
         tag = 0
+        devs0 = [list(d) for d in devs]
+        mutating = rng.random() < 0.4
         for step in range(200):
+            if mutating and rng.random() < 0.05:
+                # the registry itself changes between two accesses of the SAME hub object (the README registers devices by
+                # appending to hub.memories): a device is swapped for another one somewhere else, unplugged and another
+                # plugged in, moved, put in front of the others, added or removed.  The next accesses must be decoded by the
+                # registry as it is now.
+                mut = _mutate_registry(rng, hub, devs, model)
+                ops.append(['registry'] + mut)
+                bump('registry_' + mut[0])
+                if not devs:
+                    break
             size = rng.choice([1, 2, 4, 8])
             di = rng.randrange(len(devs))
             b, e = devs[di]
@@ -169,7 +263,7 @@ def run_shard(spec):
                 ad.memattrs.shareable = bool(rng.randrange(2))
                 ad.memattrs.outershareable = bool(rng.randrange(2))
             ops.append([opname, addr, size, value if is_write else None, ns_attr])
-            replay = dict(devs=devs, ops=list(ops))
+            replay = dict(devs=devs0, ops=list(ops))
             mech = '%s|%s' % (opname, 'unmapped' if hit is None else ('straddle' if straddle else 'inside'))
             try:
                 if is_write:
@@ -248,7 +342,14 @@ def replay(data):
     hub = MemoryControllerHub.from_memory_list([dict(mem_type='RAM', beginning=b, end=e) for b, e in devs])
     sizes = [e - b for b, e in devs]
     out = dict(evaluations=len(rp['ops']), violations=[])
-    for opname, addr, size, value, *rest in rp['ops']:
+    model = [bytearray(e - b) for b, e in devs]
+    devs = [list(d) for d in devs]
+    for op in rp['ops']:
+        if op[0] == 'registry':
+            _apply_registry(hub, devs, model, op[1:])
+            sizes = [len(m) for m in model]
+            continue
+        opname, addr, size, value, *rest = op
         ad = AddressDescriptor()
         ad.paddress.physicaladdress = addr
         ad.paddress.ns = rest[0] if rest else 0
